@@ -3,7 +3,7 @@
    pre = false -> Err and pre = true -> Ok tt; where the code is still weaker (open known findings): the full statement
    is refuted by a witness and the partial statement is proved.  Only statements, `exact`, Print Assumptions. *)
 From Coq Require Import List ZArith Bool.
-From PV Require Import Np.NpZ Gen.GenUtils Model.C19Guards Proofs.C19Proofs Proofs.C19Ttv Proofs.C19More.
+From PV Require Import Np.NpZ Gen.GenUtils Model.C19Guards Proofs.C19Proofs Proofs.C19Ttv Proofs.C19More Proofs.C19W3.
 Import ListNotations.
 Local Open Scope Z_scope.
 
@@ -96,18 +96,18 @@ Proof. exact sptensor_innerprod_decides. Qed.
 Print Assumptions C19_sptensor_innerprod.
 Example C19_sptensor_innerprod_ex : guard_sptensor_innerprod [2; 3] true [3; 2] = Err /\ guard_sptensor_innerprod [2; 3] true [2; 3] = Ok tt.
 Proof. split; reflexivity. Qed.
-(* the constructor: the lower bound of the subscripts is not checked by the code (C19-N14) *)
+(* the constructor (C19-N14 repaired: negative subscripts are refused); a subscript array without rows skips every check,
+   the value count included (C19-N16) *)
 Theorem C19_sptensor_ctor_refuted : ~ sptensor_ctor_stmt.
 Proof. exact sptensor_ctor_refuted. Qed.
 Print Assumptions C19_sptensor_ctor_refuted.
 Theorem C19_sptensor_ctor_partial : forall s subs nvals,
   subs <> [] -> hd [] subs <> [] -> (forall row, In row subs -> zlen row = zlen (hd [] subs)) ->
-  (forall row x, In row subs -> In x row -> 0 <= x) ->
   guard_sptensor_ctor s subs nvals = decide (pre_sptensor_ctor s subs nvals).
 Proof. exact sptensor_ctor_partial. Qed.
 Print Assumptions C19_sptensor_ctor_partial.
 Example C19_sptensor_ctor_ex : guard_sptensor_ctor [4] [[0]; [3]] 3 = Err /\ guard_sptensor_ctor [2; 3] [[0; 2]; [1; 1]] 2 = Ok tt
-  /\ guard_sptensor_ctor [2; 3] [[0; 3]; [1; 1]] 2 = Err.
+  /\ guard_sptensor_ctor [2; 3] [[0; 3]; [1; 1]] 2 = Err /\ guard_sptensor_ctor [2; 3] [[0; -1]; [1; 1]] 2 = Err.
 Proof. repeat split; reflexivity. Qed.
 
 (* ---- ktensor ---- *)
@@ -250,3 +250,161 @@ Theorem C19_tensor_ttv_rejects_out_of_range : forall s vlens d x,
   In x d -> ndim s <= x -> guard_tensor_ttv s vlens (Some d) None = Err.
 Proof. exact tensor_ttv_rejects_out_of_range. Qed.
 Print Assumptions C19_tensor_ttv_rejects_out_of_range.
+
+(* ---- wave 3 ---- *)
+(* element-wise + / - of two matricised tensors: rejected exactly when the matrix shapes differ (both operands hold at least
+   one element, as every constructible tenmat does; without that the statement fails on (0,1) against (1,0)) *)
+Theorem C19_tenmat_binop : forall ts rd cd us urd ucd,
+  zprod (mshape ts rd cd) <> 0 -> zprod (mshape us urd ucd) <> 0 ->
+  guard_tenmat_binop ts rd cd us urd ucd = decide (pre_tenmat_binop ts rd cd us urd ucd).
+Proof. exact tenmat_binop_decides. Qed.
+Print Assumptions C19_tenmat_binop.
+Theorem C19_tenmat_binop_refuted : ~ tenmat_binop_stmt.
+Proof. exact tenmat_binop_refuted. Qed.
+Print Assumptions C19_tenmat_binop_refuted.
+Example C19_tenmat_binop_ex : guard_tenmat_binop [2; 3] [0; 1] [] [2; 3] [] [0; 1] = Err       (* 6 x 1 against 1 x 6 *)
+  /\ guard_tenmat_binop [1; 3] [0] [1] [1; 3] [1] [0] = Err                                       (* 1 x 3 against 3 x 1 *)
+  /\ guard_tenmat_binop [2; 3; 4] [0] [1; 2] [2; 12] [0] [1] = Ok tt.
+Proof. repeat split; reflexivity. Qed.
+
+(* cp_als(optdims): a non-empty list of distinct modes of the tensor (C19-N15 repaired) *)
+Theorem C19_cp_optdims : forall s d, guard_cp_optdims s d = decide (pre_cp_optdims s d).
+Proof. exact cp_optdims_decides. Qed.
+Print Assumptions C19_cp_optdims.
+Example C19_cp_optdims_ex : guard_cp_optdims [2; 3; 4] [2; 0] = Ok tt /\ guard_cp_optdims [2; 3; 4] [0; 5] = Err
+  /\ guard_cp_optdims [2; 3; 4] [1; 1] = Err /\ guard_cp_optdims [2; 3; 4] [] = Err.
+Proof. repeat split; reflexivity. Qed.
+
+(* matricisation requests, over the GENERATED gather_wrap_dims: rdims ++ cdims must be a permutation of the modes *)
+Theorem C19_to_tenmat : forall s rd cd, guard_to_tenmat s rd cd = decide (pre_to_tenmat s rd cd).
+Proof. exact to_tenmat_decides. Qed.
+Print Assumptions C19_to_tenmat.
+Theorem C19_to_sptenmat : forall s rd cd, guard_to_sptenmat s rd cd = decide (pre_to_tenmat s rd cd).
+Proof. exact to_sptenmat_decides. Qed.
+Print Assumptions C19_to_sptenmat.
+Example C19_to_tenmat_ex : guard_to_tenmat [2; 3; 4] [2] [0; 1] = Ok tt /\ guard_to_tenmat [2; 3; 4] [2] [0] = Err
+  /\ guard_to_tenmat [2; 3; 4] [2] [0; 1; 2] = Err /\ guard_to_sptenmat [2; 3; 4] [1] [0; -1] = Err.
+Proof. repeat split; reflexivity. Qed.
+(* the tenmat constructor: only the element count of the data is compared (C19-N11, open) *)
+Theorem C19_tenmat_ctor_refuted : ~ tenmat_ctor_stmt.
+Proof. exact tenmat_ctor_refuted. Qed.
+Print Assumptions C19_tenmat_ctor_refuted.
+Theorem C19_tenmat_ctor_partial : forall d rd cd ts, rows d = zprod (pickz ts rd) -> rows d <> 0 ->
+  guard_tenmat_ctor d rd cd ts = decide (pre_tenmat_ctor d rd cd ts).
+Proof. exact tenmat_ctor_partial. Qed.
+Print Assumptions C19_tenmat_ctor_partial.
+Example C19_tenmat_ctor_ex : guard_tenmat_ctor (4, 6) [2] [0; 1] [2; 3; 4] = Ok tt /\ guard_tenmat_ctor (4, 7) [2] [0; 1] [2; 3; 4] = Err
+  /\ guard_tenmat_ctor (4, 6) [2] [0; 0] [2; 3; 4] = Err.
+Proof. repeat split; reflexivity. Qed.
+(* tensor.nvecs(n, r): the mode argument (through to_tenmat(rdims = [n]) and the generated helper) *)
+Theorem C19_nvecs : forall s n, guard_nvecs s n = decide (pre_mode s n).
+Proof. exact nvecs_decides. Qed.
+Print Assumptions C19_nvecs.
+(* tensor.ttt(other, selfdims, otherdims) *)
+Theorem C19_ttt : forall s u sd od, guard_ttt s u sd od = decide (pre_ttt s u sd od).
+Proof. exact ttt_decides. Qed.
+Print Assumptions C19_ttt.
+Example C19_ttt_ex : guard_ttt [2; 3; 4] [4; 2; 5] [2; 0] [0; 1] = Ok tt /\ guard_ttt [2; 3; 4] [4; 2; 5] [0; 2] [0; 1] = Err
+  /\ guard_ttt [2; 3; 4] [2; 3; 4] [0; 0] [0; 0] = Err /\ guard_ttt [2; 3; 4] [2; 3; 4] [-1] [-1] = Err.
+Proof. repeat split; reflexivity. Qed.
+(* linear indices k >= 0 (numpy wraps negative ones) *)
+Theorem C19_linear_index_refuted : ~ linear_index_stmt.
+Proof. exact linear_index_refuted. Qed.
+Print Assumptions C19_linear_index_refuted.
+Theorem C19_linear_index_partial : forall s k, 0 <= k -> guard_linear_index s k = decide (pre_linear_index s k).
+Proof. exact linear_index_partial. Qed.
+Print Assumptions C19_linear_index_partial.
+(* tensor.scale(factor, dims): exact when the modes are listed in ascending order; otherwise the factor is compared with
+   the sizes in ascending order, not in the caller's *)
+Theorem C19_scale_refuted : ~ scale_stmt.
+Proof. exact scale_refuted. Qed.
+Print Assumptions C19_scale_refuted.
+Theorem C19_scale_partial : forall s f d, np_sort d = d -> guard_scale s f d = decide (pre_scale s f d).
+Proof. exact scale_partial. Qed.
+Print Assumptions C19_scale_partial.
+Example C19_scale_ex : guard_scale [2; 3; 4] [2; 4] [0; 2] = Ok tt /\ guard_scale [2; 3; 4] [4; 2] [0; 2] = Err
+  /\ guard_scale [2; 3; 4] [2; 1] [0; 2] = Err /\ guard_scale [2; 3; 4] [2; 2] [0; 0] = Err.
+Proof. repeat split; reflexivity. Qed.
+(* mttkrp on a Kruskal tensor: single-column matrices are stretched (C19-N09, open); on a sum of a dense and a Kruskal
+   part the dense part's comparison makes the request exact *)
+Theorem C19_ktensor_mttkrp_refuted : ~ ktensor_mttkrp_stmt.
+Proof. exact ktensor_mttkrp_refuted. Qed.
+Print Assumptions C19_ktensor_mttkrp_refuted.
+Theorem C19_ktensor_mttkrp_partial : forall s us n, forallb (fun u => negb (cols u =? 1)) us = true ->
+  guard_ktensor_mttkrp s us n = decide (pre_mttkrp s us n).
+Proof. exact ktensor_mttkrp_partial. Qed.
+Print Assumptions C19_ktensor_mttkrp_partial.
+Theorem C19_sumtensor_mttkrp : forall s us n, guard_sumtensor_mttkrp s us n = decide (pre_mttkrp s us n).
+Proof. exact sumtensor_mttkrp_decides. Qed.
+Print Assumptions C19_sumtensor_mttkrp.
+Example C19_ktensor_mttkrp_ex : guard_ktensor_mttkrp [2; 3; 4] [(2, 2); (3, 2); (4, 2)] 1 = Ok tt
+  /\ guard_ktensor_mttkrp [2; 3; 4] [(2, 2); (3, 2); (4, 3)] 1 = Err /\ guard_ktensor_mttkrp [2; 3; 4] [(2, 2); (4, 2); (3, 2)] 0 = Err
+  /\ guard_sumtensor_mttkrp [2; 2; 2] [(2, 2); (2, 2); (2, 1)] 0 = Err.
+Proof. repeat split; reflexivity. Qed.
+
+(* ttm on a Tucker tensor: tt_dimscheck and the size loop (an empty selection of modes is answered); on a sparse tensor:
+   the chain of single-matrix products, rejected exactly like the dense ttm *)
+Theorem C19_ttensor_ttm : forall s ms dims excl tr, guard_ttensor_ttm s ms dims excl tr = decide (pre_ttensor_ttm s ms dims excl tr).
+Proof. exact ttensor_ttm_decides. Qed.
+Print Assumptions C19_ttensor_ttm.
+Theorem C19_sptensor_ttm : forall s ms dims excl tr, guard_sptensor_ttm s ms dims excl tr = decide (pre_ttm s ms dims excl tr).
+Proof. exact sptensor_ttm_decides. Qed.
+Print Assumptions C19_sptensor_ttm.
+Example C19_ttensor_ttm_ex : guard_ttensor_ttm [2; 3; 4] [(5, 4); (6, 2)] (Some [2; 0]) None false = Ok tt
+  /\ guard_ttensor_ttm [2; 3; 4] [(5, 2); (6, 4)] (Some [2; 0]) None false = Err
+  /\ guard_ttensor_ttm [2; 3; 4] [(4, 5); (2, 6)] (Some [2; 0]) None true = Ok tt
+  /\ guard_sptensor_ttm [2; 3; 4] [(5, 2); (6, 4)] (Some [2; 0]) None false = Err.
+Proof. repeat split; reflexivity. Qed.
+
+(* mttkrp on a sparse tensor: matrices with MORE columns than the first one are used up to that column (C19-N09, open);
+   exact when no matrix has more columns than R = the column count of U[1] (U[0] when n <> 0) and R > 0 *)
+Theorem C19_sptensor_mttkrp_refuted : ~ sptensor_mttkrp_stmt.
+Proof. exact sptensor_mttkrp_refuted. Qed.
+Print Assumptions C19_sptensor_mttkrp_refuted.
+Theorem C19_sptensor_mttkrp_partial : forall s us n,
+  0 < mttkrp_R us n -> forallb (fun u => cols u <=? mttkrp_R us n) us = true ->
+  guard_sptensor_mttkrp s us n = decide (pre_mttkrp s us n).
+Proof. exact sptensor_mttkrp_partial. Qed.
+Print Assumptions C19_sptensor_mttkrp_partial.
+Example C19_sptensor_mttkrp_ex : guard_sptensor_mttkrp [2; 3; 4] [(2, 2); (3, 2); (4, 2)] 1 = Ok tt
+  /\ guard_sptensor_mttkrp [2; 3; 4] [(2, 2); (3, 2); (4, 1)] 1 = Err /\ guard_sptensor_mttkrp [2; 3; 4] [(2, 2); (4, 2); (3, 2)] 0 = Err.
+Proof. repeat split; reflexivity. Qed.
+(* sptensor.extract: numpy broadcasts a single subscript column / any columns on a 1-way tensor (C19-N17, open) *)
+Theorem C19_sptensor_extract_refuted : ~ sptensor_extract_stmt.
+Proof. exact sptensor_extract_refuted. Qed.
+Print Assumptions C19_sptensor_extract_refuted.
+Theorem C19_sptensor_extract_partial : forall s subs,
+  subs <> [] -> (forall row, In row subs -> zlen row = zlen (hd [] subs)) -> zlen (hd [] subs) <> 1 -> ndim s <> 1 ->
+  guard_sptensor_extract s subs = decide (pre_subs s subs).
+Proof. exact sptensor_extract_partial. Qed.
+Print Assumptions C19_sptensor_extract_partial.
+Example C19_sptensor_extract_ex : guard_sptensor_extract [2; 3] [[0; 2]; [1; 1]] = Ok tt /\ guard_sptensor_extract [2; 3] [[0; 3]; [1; 1]] = Err
+  /\ guard_sptensor_extract [2; 3] [[0; -1]; [1; 1]] = Err /\ guard_sptensor_extract [2; 3; 4] [[0; 2]; [1; 1]] = Err.
+Proof. repeat split; reflexivity. Qed.
+(* sptensor.from_aggregator: a subscript array without elements skips the comparisons (C19-N18, known) *)
+Theorem C19_from_aggregator_refuted : ~ from_aggregator_stmt.
+Proof. exact from_aggregator_refuted. Qed.
+Print Assumptions C19_from_aggregator_refuted.
+Theorem C19_from_aggregator_partial : forall s subs nvals,
+  all_pos s = true -> subs <> [] -> hd [] subs <> [] -> (forall row, In row subs -> zlen row = zlen (hd [] subs)) ->
+  guard_from_aggregator s subs nvals = decide (pre_sptensor_ctor s subs nvals).
+Proof. exact from_aggregator_partial. Qed.
+Print Assumptions C19_from_aggregator_partial.
+Example C19_from_aggregator_ex : guard_from_aggregator [2; 3] [[0; 2]; [1; 1]] 2 = Ok tt /\ guard_from_aggregator [2; 3] [[0; 3]; [1; 1]] 2 = Err
+  /\ guard_from_aggregator [2; 3] [[0; 2]; [1; 1]] 3 = Err /\ guard_from_aggregator [2; 3] [[0]; [1]] 2 = Err
+  /\ guard_from_aggregator [2; 3] [[0; 2; 0]; [1; 1; 0]] 2 = Err.
+Proof. repeat split; reflexivity. Qed.
+
+(* gcp_opt: rank, optimizer and initial guess ("random" or a Kruskal tensor); a guess given as a list of matrices is not
+   compared with the rank or the shape (C19-N19, open) *)
+Theorem C19_gcp_opt_refuted : ~ gcp_opt_stmt.
+Proof. exact gcp_opt_refuted. Qed.
+Print Assumptions C19_gcp_opt_refuted.
+Theorem C19_gcp_opt_partial : forall s rank init opt_ok, (forall ms, init <> InitList ms) ->
+  guard_gcp_opt s rank init opt_ok = decide (pre_gcp_opt s rank init opt_ok).
+Proof. exact gcp_opt_partial. Qed.
+Print Assumptions C19_gcp_opt_partial.
+Example C19_gcp_opt_ex : guard_gcp_opt [3; 2] 2 (InitK [3; 2] 2) true = Ok tt /\ guard_gcp_opt [3; 2] 2 (InitK [3; 2] 3) true = Err
+  /\ guard_gcp_opt [3; 2] 2 (InitK [2; 3] 2) true = Err /\ guard_gcp_opt [3; 2] 0 InitRandom true = Err
+  /\ guard_gcp_opt [3; 2] 2 InitRandom false = Err /\ guard_gcp_opt [3; 2] 2 (InitList [(3, 2); (2, 3)]) true = Err.
+Proof. repeat split; reflexivity. Qed.
